@@ -398,10 +398,14 @@ def classify(tree):
     from formulae import expr as E
 
     found = []
+    top = [True]   # still on the additive spine of the top-level right-hand side
 
     def walk(e):
         if isinstance(e, E.Grouping):
+            was = top[0]
+            top[0] = False
             walk(e.expression)
+            top[0] = was
         elif isinstance(e, E.Binary):
             if e.operator.kind == "PIPE":
                 its = _items(_strip(e.left))
@@ -410,8 +414,18 @@ def classify(tree):
                 bare(its)
             if e.operator.kind == "STAR_STAR" and _int_literal(e.right) == 1:
                 found.append("power_one")
+            if e.operator.kind in ("PLUS", "MINUS") and not top[0]:
+                def is_pipe(x):
+                    x = _strip(x)
+                    return isinstance(x, E.Binary) and x.operator.kind == "PIPE"
+                if is_pipe(e.left) != is_pipe(e.right):
+                    found.append("nested_group_term")
+            was = top[0]
+            if e.operator.kind not in ("PLUS", "MINUS"):
+                top[0] = False
             walk(e.left)
             walk(e.right)
+            top[0] = was
         elif isinstance(e, E.Unary):
             walk(e.right)
 
